@@ -138,6 +138,7 @@ Definition run_cmd (m : ovf_mode) (cmd : tok) (args : list tok) : list byte :=
   else if tok_is cmd "REALNOW" then S_ "OK"     (* the real clock: the implementation's answers are bracketed by the harness' own clock readings *)
   else if tok_is cmd "SCHED" then run_sched args
   else if tok_is cmd "SCHEDX" then run_sched args     (* implementation side: the calls go through other entry points that generate fresh timestamps *)
+  else if tok_is cmd "SCHEDT" then run_sched args     (* implementation side: the clock ticks inside every call; judged by the oracle alone *)
   else if tok_is cmd "SCHEDP" then run_sched_pinned args
   else if tok_is cmd "VALIDATE" then run_validate args
   else if tok_is cmd "OPS" then run_ops m args
